@@ -269,6 +269,23 @@ async fn s_namespace(h: &mut Host) -> Result<(), Fail> {
         h.subscriber.delete_subscription(DeleteSubscriptionRequest { subscription: name.clone() }).await.map_err(|e| f("C10+C11", format!("DeleteSubscription failed: {:?}", e.code())))?;
         expect_code(h.subscriber.get_subscription(GetSubscriptionRequest { subscription: name.clone() }).await, Code::NotFound, "C10+C11", "GetSubscription after DeleteSubscription returned")?;
     }
+    // C10: a duplicate create that is rejected changes nothing - also when it carries a push configuration
+    {
+        let (url, mut rx) = push_endpoint().await?;
+        let name = "projects/p/subscriptions/dup";
+        h.sub(name, t, 0, None).await.map_err(c10("CreateSubscription of an absent name on an existing topic of the same project"))?;
+        expect_code(h.sub(name, t, 0, Some(&url)).await, Code::AlreadyExists, "C10", "CreateSubscription of an existing name (with a push config)")?;
+        h.publish(t, vec![(vec![6], HashMap::new())]).await.map_err(setup("publish"))?;
+        jump(Duration::from_secs(2)).await;
+        if let Ok(Some(_)) = tokio::time::timeout(Duration::from_millis(500), rx.recv()).await {
+            return Err(f("C10", "a message of a pull subscription was pushed to the endpoint of a REJECTED duplicate CreateSubscription".into()));
+        }
+        let m = h.pull(name, 10, true).await.map_err(setup("pull"))?;
+        if m.len() != 1 { return Err(f("C10+C01", format!("after a rejected duplicate CreateSubscription the pull subscription delivers {} of 1 messages", m.len()))); }
+        let got = h.subscriber.get_subscription(GetSubscriptionRequest { subscription: name.into() }).await.map_err(|e| f("C10", format!("GetSubscription: {:?}", e.code())))?.into_inner();
+        if got.push_config.map(|p| !p.push_endpoint.is_empty()).unwrap_or(false) { return Err(f("C10", "a rejected duplicate CreateSubscription changed the push configuration that is read back".into())); }
+        h.ack(name, m.iter().map(|x| x.ack_id.clone()).collect()).await.map_err(setup("ack"))?;
+    }
     // C04 through the API: a subscription created with 3 s still waits the 10 s minimum
     let name = "projects/p/subscriptions/floor";
     h.sub(name, t, 3, None).await.map_err(c10("CreateSubscription of an absent name on an existing topic of the same project"))?;
@@ -337,6 +354,23 @@ async fn s_malformed(h: &mut Host) -> Result<(), Fail> {
     for e in [&ea, &eb] {
         let got = h.publisher.get_topic(GetTopicRequest { topic: e.clone() }).await.map_err(|s| f("C18", format!("the echoed name {:?} is not accepted back: {:?}", e, s.code())))?.into_inner().name;
         if got != *e { return Err(f("C18", format!("GetTopic({:?}) answers for {:?}", e, got))); }
+    }
+    // C17: a negative ack_deadline_seconds is either rejected or harmless - the subscription must stay usable
+    for secs in [-1, i32::MIN] {
+        let name = format!("projects/p/subscriptions/neg{}", if secs == -1 { 1 } else { 2 });
+        match h.sub(&name, t, secs, None).await {
+            Err(e) if e.code() == Code::InvalidArgument => {}
+            Err(e) => return Err(f("C17", format!("CreateSubscription(ack_deadline_seconds={}): {:?}", secs, e.code()))),
+            Ok(_) => {
+                h.publish(t, vec![(vec![5], HashMap::new())]).await.map_err(|e| f("C17+C01", format!("Publish after CreateSubscription(ack_deadline_seconds={}) failed: {:?}", secs, e.code())))?;
+                match h.pull(&name, 1, true).await {
+                    Ok(m) if m.len() == 1 => { h.ack(&name, vec![m[0].ack_id.clone()]).await.map_err(|e| f("C17", format!("Acknowledge on a subscription created with ack_deadline_seconds={} failed: {:?}", secs, e.code())))?; }
+                    Ok(m) => return Err(f("C17+C01", format!("a subscription created with ack_deadline_seconds={} delivers {} of 1 messages", secs, m.len()))),
+                    Err(e) => return Err(f("C17", format!("Pull on a subscription created with ack_deadline_seconds={} fails with {:?} (the accepted request wedged the subscription)", secs, e.code()))),
+                }
+                h.subscriber.delete_subscription(DeleteSubscriptionRequest { subscription: name.clone() }).await.map_err(|e| f("C17+C11", format!("DeleteSubscription of a subscription created with ack_deadline_seconds={} failed: {:?}", secs, e.code())))?;
+            }
+        }
     }
     // the server keeps serving
     h.publish(t, vec![(vec![1], HashMap::new())]).await.map_err(|e| f("C17", format!("server no longer serves after malformed requests: {:?}", e.code())))?;
@@ -634,6 +668,34 @@ async fn s_stream_concurrent_publish(h: &mut Host) -> Result<(), Fail> {
     result
 }
 
+
+/// C15 "returns as soon as at least one message is available", with real parallelism: a unary Pull and a Publish are
+/// issued at the same moment on a multi-threaded runtime, many times; every Pull must come back with the message
+async fn s_pull_publish_race(h: &mut Host) -> Result<(), Fail> {
+    let (t, s) = ("projects/p/topics/ppr", "projects/p/subscriptions/ppr");
+    h.topic(t).await.map_err(c10("CreateTopic of an absent, well-formed name"))?;
+    h.sub(s, t, 0, None).await.map_err(c10("CreateSubscription of an absent name on an existing topic of the same project"))?;
+    for round in 0..150 {
+        let mut sc = h.subscriber.clone();
+        let pull = tokio::spawn(async move {
+            #[allow(deprecated)]
+            sc.pull(PullRequest { subscription: s.to_string(), return_immediately: false, max_messages: 10 }).await.map(|r| r.into_inner().received_messages)
+        });
+        let mut pc = h.publisher.clone();
+        let publish = tokio::spawn(async move {
+            pc.publish(PublishRequest { topic: t.to_string(), messages: vec![PubsubMessage { publish_time: None, attributes: Default::default(), message_id: String::new(), ordering_key: String::new(), data: vec![1] }] }).await.map(|_| ())
+        });
+        match tokio::time::timeout(Duration::from_secs(5), pull).await {
+            Ok(Ok(Ok(m))) if m.len() == 1 => { h.ack(s, m.iter().map(|x| x.ack_id.clone()).collect()).await.map_err(setup("ack"))?; }
+            Ok(Ok(Ok(m))) => return Err(f("C15", format!("round {}: a Pull racing one Publish returned {} messages", round, m.len()))),
+            Ok(Ok(Err(e))) => return Err(f("C15", format!("round {}: Pull failed with {:?}", round, e.code()))),
+            _ => return Err(f("C15+C06", format!("round {}: a Pull issued together with a Publish is still blocked after 5 s although the message is available", round))),
+        }
+        let _ = publish.await;
+    }
+    Ok(())
+}
+
 /// C15 (streaming limit) and C17 (inconsistent control messages) on an open StreamingPull
 async fn s_stream_limits(h: &mut Host) -> Result<(), Fail> {
     let (t, s) = ("projects/p/topics/sl", "projects/p/subscriptions/sl");
@@ -685,7 +747,9 @@ async fn s_stream_limits(h: &mut Host) -> Result<(), Fail> {
 }
 
 pub fn run_all() -> i32 {
-    let scenarios: Vec<(&str, fn(&mut Host) -> std::pin::Pin<Box<dyn std::future::Future<Output = Result<(), Fail>> + '_>>)> = vec![
+    type Sc = fn(&mut Host) -> std::pin::Pin<Box<dyn std::future::Future<Output = Result<(), Fail>> + '_>>;
+    let multi: Vec<(&str, Sc)> = vec![("pull_publish_race", |h| Box::pin(s_pull_publish_race(h)))];
+    let scenarios: Vec<(&str, Sc)> = vec![
         ("pull_limits", |h| Box::pin(s_pull_limits(h))),
         ("batches", |h| Box::pin(s_batches(h))),
         ("multi_extend", |h| Box::pin(s_multi_extend(h))),
@@ -700,11 +764,14 @@ pub fn run_all() -> i32 {
         ("cross_consumers", |h| Box::pin(s_cross_consumers(h))),
         ("stream_concurrent_publish", |h| Box::pin(s_stream_concurrent_publish(h))),
     ];
-    let n = scenarios.len();
+    let n = scenarios.len() + multi.len();
     // every scenario runs; each failing one prints its own WITNESS line (the driver picks the one for the property at hand)
     let (mut witnesses, mut setup_errors) = (0, 0);
-    for (name, sc) in scenarios {
-        let rt = tokio::runtime::Builder::new_current_thread().enable_all().build().unwrap();
+    let all: Vec<(&str, Sc, bool)> = scenarios.into_iter().map(|(a, b)| (a, b, false)).chain(multi.into_iter().map(|(a, b)| (a, b, true))).collect();
+    for (name, sc, threads) in all {
+        // scenarios that move virtual time need the current-thread runtime; the race scenarios use 4 worker threads
+        let rt = if threads { tokio::runtime::Builder::new_multi_thread().worker_threads(4).enable_all().build().unwrap() }
+                 else { tokio::runtime::Builder::new_current_thread().enable_all().build().unwrap() };
         let r: Result<(), Fail> = rt.block_on(async {
             let mut h = Host::start().await?;
             let r = sc(&mut h).await;
